@@ -103,6 +103,18 @@ Theorem C11_committed_value_is_concatenation_of_writes :
 Proof. exact acc_is_written. Qed.
 Print Assumptions C11_committed_value_is_concatenation_of_writes.
 
+(* cache.Close() (directoryCache): in every state reached after a CloseCache, whatever happened before (s0 arbitrary) and
+   after it, Get misses and Add fails without changing anything, and nothing is linked at any final path any more
+   (a persist step or direct Commit that comes after Close does not rename).  Readers opened BEFORE the Close are covered
+   by C11_hit_is_committed (its os2 may contain CloseCache): they keep reading their value from the unlinked inode / buffer. *)
+Theorem C11_closed_cache_never_hits :
+  forall (s0 : st) (os : list op) (k : nat) (d : bool) (p : option nat),
+    let s := exec s0 (CloseCache :: os) in
+    step s (Get k d) = (s, OMiss) /\ step s (Add k d p) = (s, OErr) /\ do_peek s k = OMiss
+    /\ snd (get_open s k d) = OMiss.
+Proof. exact after_close. Qed.
+Print Assumptions C11_closed_cache_never_hits.
+
 (* MemoryCache: every open reader reads exactly the value a writer committed under its key. *)
 Theorem C11_memcache_hit_is_committed :
   forall (os : list op) (r : nat) (rd : mreader),
@@ -117,25 +129,41 @@ Print Assumptions C11_memcache_hit_is_committed.
    committed and evicts key 0 from the LRU; a third writer (key 2) cannot get buffer 0 (not pooled); the reader still
    reads [1;2;3]; after the reader and the persist step let go, buffer 0 is recycled and handed to the next Add. *)
 Example C11_nonvacuous_evicted_but_held :
-  let os := [Add 0 false None; Write 0 [1;2;3]%N; Commit 0; Get 0 false;
-             Add 1 false None; Write 1 [9]%N; Commit 1; Add 2 false (Some 0)] in
+  let os := [Add 0 false None; Write 0 [1;2;3]%N; Commit 0 true; Get 0 false;
+             Add 1 false None; Write 1 [9]%N; Commit 1 true; Add 2 false (Some 0)] in
   let s := exec (init 1 1) os in
   (exists rd, nth_error (readers s) 0 = Some rd /\ r_open rd = true /\ r_val rd = [1;2;3]%N /\ r_kind rd = RBuf 0 3 1)
   /\ R.lru_find (R.lru (dc s)) 0 = None
   /\ read s 0 1 5 = OData [2;3]%N
   /\ pool s = []
   /\ snd (step s (Get 0 false)) = OMiss
-  /\ pool (exec s [CloseR 0; PWrite 0; PRename 0; PDone 0]) = [0]
-  /\ snd (step (exec s [CloseR 0; PWrite 0; PRename 0; PDone 0]) (Get 0 false)) = OHit
-  /\ snd (step (exec s [CloseR 0; PWrite 0; PRename 0; PDone 0]) (Add 3 false (Some 0))) = OOk true.
+  /\ pool (exec s [CloseR 0; PWrite 0; PRename 0 true; PDone 0]) = [0]
+  /\ snd (step (exec s [CloseR 0; PWrite 0; PRename 0 true; PDone 0]) (Get 0 false)) = OHit
+  /\ snd (step (exec s [CloseR 0; PWrite 0; PRename 0 true; PDone 0]) (Add 3 false (Some 0))) = OOk true.
 Proof. vm_compute. repeat split; try reflexivity. eexists. repeat split; reflexivity. Qed.
 
 (* Non-vacuity 2: duplicate adds of one key (memory + direct), zero-length value, abort: the hits are the committed
    values only; the descriptor path is used after the memory entry is gone. *)
 Example C11_nonvacuous_duplicates :
   let os := [Add 5 false None; Add 5 true None; Add 5 false None; Write 1 [7;7]%N; Write 2 [8]%N; Abort 2;
-             Commit 0; PWrite 0; PRename 0; PDone 0; Get 5 false; Commit 1; Get 5 true; Peek 5] in
+             Commit 0 true; PWrite 0; PRename 0 true; PDone 0; Get 5 false; Commit 1 true; Get 5 true; Peek 5] in
   run (init 2 1) os = [OOk true; OOk true; OOk true; ONone; ONone; ONone; ONone; ONone; ONone; ONone; OHit; ONone; OHit; OData [7;7]%N]
   /\ read (exec (init 2 1) os) 0 0 4 = OData []
   /\ read (exec (init 2 1) os) 1 0 4 = OData [7;7]%N.
 Proof. vm_compute. repeat split; reflexivity. Qed.
+
+(* Non-vacuity 3: a short write during persistence (PFail) leaves nothing at the final path; a lookup whose three probes are
+   interleaved with a commit of the same key (GetMem misses, then the value is published and persisted, then GetFd misses,
+   GetOpen hits the new file); a MkdirAll failure on a direct Commit publishes nothing; a reader opened before Close keeps
+   its value after Close, while new lookups miss. *)
+Example C11_nonvacuous_faults_and_close :
+  let os := [Add 0 false None; Write 0 [4;5;6]%N; Commit 0 true; PFail 0 2; PDone 0; Peek 0;
+             GetMem 1; Add 1 false None; Write 1 [7]%N; Commit 1 true; PWrite 1; PRename 1 true; PDone 1; GetFd 1; GetOpen 1 false;
+             Add 2 true None; Write 2 [9]%N; Commit 2 false; Get 2 true;
+             CloseCache; ReadAt 0 0 4; Get 1 false; Add 3 false None; Peek 1] in
+  run (init 1 1) os =
+    [OOk true; ONone; ONone; ONone; ONone; OMiss;
+     OMiss; OOk true; ONone; ONone; ONone; ONone; ONone; OMiss; OHit;
+     OOk true; ONone; ONone; OMiss;
+     ONone; OData [7]%N; OMiss; OErr; OMiss].
+Proof. vm_compute. reflexivity. Qed.
